@@ -466,7 +466,7 @@ def gen_model(rng: random.Random, cfg: ModelCfg | None = None) -> GModel:
     if len(named) >= 2 and rng.random() < cfg.p_shared:
         pair = tuple(rng.sample(named, 2))
         k = rng.random()
-        if k < 0.5:
+        if k < 0.5 and m.params:
             m.tags[rng.choice(list(m.params))] = pair
         elif k < 0.8 and inter_names:
             m.tags[rng.choice(inter_names)] = pair
